@@ -26,7 +26,7 @@ ASSUMPTIONS = [
     "size cap lowered to 4096 in the check process",
 ]
 
-FAULTS = [None, None, None, "refuse", "garbage-hello", "close-before-header", "close-mid-header", "garbage-header", "garbage-header-long",
+FAULTS = [None, None, None, "refuse", "garbage-hello", "close-before-header", "close-mid-header", "garbage-header", "garbage-header-long", "garbage-header-tab",
           "reset-mid-body", "fin-mid-body", "stall-before-header", "stall-mid-header", "stall-mid-body", "stall-no-accept", "trickle-mid-body"]
 TIMEOUT = 5.0
 
@@ -166,6 +166,10 @@ def run_case(case: dict):
             script += [("send", data[: max(1, hdr_end // 2)].replace(b"\r\n", b"")), ("mark",), ("close",)]
         elif fault == "garbage-header":
             script += [("send", b"\xff\xfe\x00garbage without status\r\nbody"), ("mark",), ("close",)]
+        elif fault == "garbage-header-tab":
+            # almost a header: status and meta separated by something other than the one space the protocol prescribes
+            sepx = [b"\t", b"\x0b", b"\xc2\xa0", b""][case["chunk"] % 4]
+            script += [("send", b"20" + sepx + b"text/plain\r\nbody"), ("mark",), ("close",)]
         elif fault == "garbage-header-long":
             # valid UTF-8, no status, one long space-free token of multi-byte characters at an odd byte offset
             tok = ("x" * (1 + case["chunk"] % 3) + "\u00e9" * 1500) if case["tls_chunk"] != 50 else ("y" + "\u65e5" * 900)
@@ -247,7 +251,7 @@ def run_case(case: dict):
     if t_resp > 2 * TIMEOUT + 0.5:
         return viol("response-too-late", f"{t_resp:.1f}s > {2 * TIMEOUT}s", **info)
     delivered = {"close-mid-header": b"", "close-before-header": b"", "stall-before-header": b"", "stall-mid-header": b"",
-                 "garbage-header": b"\xff", "garbage-header-long": b"x", "refuse": b"", "garbage-hello": b"", "stall-no-accept": b""}
+                 "garbage-header": b"\xff", "garbage-header-long": b"x", "garbage-header-tab": b"2", "refuse": b"", "garbage-hello": b"", "stall-no-accept": b""}
     if fault is None:
         ref = c13.reference(data, "clean")
     elif fault in ("reset-mid-body", "fin-mid-body"):
